@@ -39,6 +39,12 @@ def canon(res):
 def main():
     logging.disable(logging.CRITICAL)
     req = json.load(sys.stdin)
+    if req.get("standin"):
+        # stiffness-checked calls: PyGSL stand-in + lambdify instead of the Cython compile (harness/core/tb.py)
+        import os
+        sys.path.insert(0, os.path.abspath(os.path.join(os.path.dirname(__file__), "..", "..")))
+        from harness.core import tb
+        tb.import_toolbox(standin=True)
     import odetoolbox
     from odetoolbox.config import Config
     outs = []
